@@ -769,6 +769,144 @@ theorem erase_powZ_self (hI : I * I = -1) {p : ZPoly} {n : ℤ} {ek : ExpKind}
               simp [powIsSelf, hn, hle]
           · cases h
 
+/-! ### composition `p(q)` -/
+
+theorem powZ_new_zero {q r : ZPoly} {n : ℤ} {ek : ExpKind} (h : powZ q n ek = .new r) : r.zero = q.zero := by
+  unfold powZ at h
+  split at h
+  · cases h; rfl
+  · split at h
+    · cases h; rfl
+    · split at h
+      · cases h; rfl
+      · split at h
+        · cases h
+        · cases h; rfl
+    · split at h
+      · cases h
+      · split at h
+        · cases h
+        · cases h; exact powLoopZ_zero' _ _
+
+/-- one summand `coeff * value ** power` of `Poly.__call__` on a Poly -/
+def composeTermZ (q : ZPoly) (kc : Int × PyNum) : Except PyErr ZPoly :=
+  match powZ q kc.1 .int with
+  | .new r => pure (mulZ (ofNumZ kc.2 (some r.zero)) r)
+  | .self => pure (mulZ (ofNumZ kc.2 (some q.zero)) q)
+  | .err e => throw e
+
+theorem erase_composeTermZ (hI : I * I = -1) {q : ZPoly} (hg : Good q) (hz : NumZ q.zero) {kc : Int × PyNum} {t : ZPoly}
+    (h : composeTermZ q kc = .ok t) :
+    erase I t = mul (ofScalar (num I kc.2)) (pow (erase I q) kc.1) ∧ t.zero = q.zero := by
+  unfold composeTermZ at h
+  cases hp : powZ q kc.1 .int with
+  | new r =>
+    rw [hp] at h
+    cases h
+    have hr : r.zero = q.zero := powZ_new_zero hp
+    refine ⟨?_, hr⟩
+    rw [erase_mulZ hI (by show NumZ r.zero; rw [hr]; exact hz),
+      erase_ofNumZ hI _ (z := some r.zero) (by show NumZ r.zero; rw [hr]; exact hz), erase_powZ_new hI hg hz hp]
+  | self =>
+    rw [hp] at h
+    cases h
+    refine ⟨?_, rfl⟩
+    rw [erase_mulZ hI (by exact hz), erase_ofNumZ hI _ (z := some q.zero) hz, (erase_powZ_self hI hp).1]
+  | err e => rw [hp] at h; cases h
+
+theorem erase_mapM_composeTermZ (hI : I * I = -1) {q : ZPoly} (hg : Good q) (hz : NumZ q.zero) (d : MPoly PyNum) :
+    ∀ ts : List ZPoly, d.mapM (composeTermZ q) = .ok ts →
+      ts.map (erase I) = (eraseD I d).map (fun kc => mul (ofScalar kc.2) (pow (erase I q) kc.1)) ∧
+        ∀ t ∈ ts, t.zero = q.zero := by
+  induction d with
+  | nil =>
+    intro ts h
+    cases h
+    exact ⟨rfl, fun t ht => absurd ht (List.not_mem_nil)⟩
+  | cons a u ih =>
+    intro ts h
+    rw [List.mapM_cons] at h
+    cases ha : composeTermZ q a with
+    | error e => rw [ha] at h; cases h
+    | ok t =>
+      cases hu : u.mapM (composeTermZ q) with
+      | error e => rw [ha, hu] at h; cases h
+      | ok us =>
+        rw [ha, hu] at h
+        cases h
+        obtain ⟨h1, h2⟩ := ih us hu
+        obtain ⟨e1, e2⟩ := erase_composeTermZ hI hg hz ha
+        refine ⟨?_, ?_⟩
+        · show erase I t :: us.map (erase I) = _
+          rw [h1, e1]; rfl
+        · intro x hx
+          rcases List.mem_cons.1 hx with rfl | hx
+          · exact e2
+          · exact h2 x hx
+
+theorem foldl_addZ_zero (ts : List ZPoly) (acc : ZPoly) : (ts.foldl addZ acc).zero = acc.zero := by
+  induction ts generalizing acc with
+  | nil => rfl
+  | cons t u ih => rw [List.foldl_cons, ih]; rfl
+
+theorem erase_foldl_addZ (hI : I * I = -1) (ts : List ZPoly) (acc : ZPoly) (hz : NumZ acc.zero) :
+    erase I (ts.foldl addZ acc) = (ts.map (erase I)).foldl add (erase I acc) := by
+  induction ts generalizing acc with
+  | nil => rfl
+  | cons t u ih =>
+    rw [List.foldl_cons, ih _ (by exact hz), erase_addZ hI hz]
+    rfl
+
+theorem wf_foldl_add_erase (l : List (MPoly K)) (a : MPoly K) (h : WF a) : WF (l.foldl add a) := by
+  induction l generalizing a with
+  | nil => exact h
+  | cons x u ih => exact ih _ (wf_add _ _)
+
+theorem good_foldl_addZ (ts : List ZPoly) (acc : ZPoly) (h : Good acc) : Good (ts.foldl addZ acc) := by
+  induction ts generalizing acc with
+  | nil => exact h
+  | cons t u ih => exact ih _ (good_normZ _ _)
+
+/-- **composition**: `p(q)` for Polys (`Poly(sum(coeff * value ** power …), self.zero)`, with the summands carrying
+    the zero of `q` and the final cast the zero of `p`) erases to the field model's `compose` -/
+theorem erase_composeZ (hI : I * I = -1) {p q r : ZPoly} (hg : Good q) (hzp : NumZ p.zero) (hzq : NumZ q.zero)
+    (h : composeZ p q = .ok r) : erase I r = compose (erase I p) (erase I q) := by
+  unfold composeZ at h
+  have hterms : composeTerms p q = p.data.mapM (composeTermZ q) := rfl
+  rw [hterms] at h
+  unfold compose
+  cases hm : p.data.mapM (composeTermZ q) with
+  | error e => rw [hm] at h; cases h
+  | ok ts =>
+    obtain ⟨h1, h2⟩ := erase_mapM_composeTermZ hI hg hzq p.data ts hm
+    rw [hm] at h
+    have hfold : ∀ a : MPoly K, (erase I p).foldl (fun acc kc => add acc (mul (ofScalar kc.2) (pow (erase I q) kc.1))) a =
+        (ts.map (erase I)).foldl add a := by
+      intro a; rw [h1, List.foldl_map]; rfl
+    rw [hfold]
+    cases ts with
+    | nil =>
+      cases h
+      rw [erase_ofNumZ hI _ (z := some p.zero) hzp, num_int, Int.cast_zero]
+      exact (compact_of_wf (wf_ofScalar _)).symm
+    | cons t us =>
+      cases h
+      have ht : t.zero = q.zero := h2 t (List.mem_cons_self ..)
+      have hz0 : NumZ (addZ (ofNumZ (.int 0) (some t.zero)) t).zero := by show NumZ t.zero; rw [ht]; exact hzq
+      have hzf : NumZ (us.foldl addZ (addZ (ofNumZ (.int 0) (some t.zero)) t)).zero := by
+        rw [foldl_addZ_zero]; exact hz0
+      have hgf : Good (us.foldl addZ (addZ (ofNumZ (.int 0) (some t.zero)) t)) :=
+        good_foldl_addZ _ _ (good_normZ _ _)
+      show erase I (normZ _ p.zero) = _
+      rw [erase_normZ hI hzp]
+      show mk (erase I (us.foldl addZ (addZ (ofNumZ (.int 0) (some t.zero)) t))) = _
+      rw [mk_of_wf (wf_erase hI hgf hzf), erase_foldl_addZ hI _ _ hz0,
+        erase_addZ hI (by show NumZ t.zero; rw [ht]; exact hzq),
+        erase_ofNumZ hI _ (z := some t.zero) (by show NumZ t.zero; rw [ht]; exact hzq), num_int]
+      rw [List.map_cons, List.foldl_cons]
+      rw [Int.cast_zero]
+      exact (compact_of_wf (wf_foldl_add_erase _ _ (wf_add _ _))).symm
+
 /-- the value of a number-or-zero answer (`[]` / `{}` cannot occur for numeric zeros) -/
 def valOf (I : K) : PyVal → K
   | .num x => num I x
